@@ -83,10 +83,10 @@ class Gen:
         r = self.rng.below(100)
         if d <= 0 or r < 25:
             return self.rng.choice([self.lit(), self.w("a"), self.w("b"), self.w("g"), self.w("r")])
-        if r < 31: return self.w("s") + self.n("[") + self.glue(self.ie(d - 1)) + self.n("]")
+        if r < 31: return self.w("s") + self.n("[") + self.glue(self.idx(d - 1)) + self.n("]")
         if r < 35: return self.w("m") + self.n("[") + self.n('"k"') + self.n("]")
         if r < 39: return self.w("t") + self.n(".") + self.n("x")
-        if r < 42: return self.w("t") + self.n(".") + self.n("p") + self.n(".") + self.n("s") + self.n("[") + self.glue(self.ie(d - 1)) + self.n("]")
+        if r < 42: return self.w("t") + self.n(".") + self.n("p") + self.n(".") + self.n("s") + self.n("[") + self.glue(self.idx(d - 1)) + self.n("]")
         if r < 48: return self.w("f") + self.n("(") + self.glue(self.ie(d - 1)) + self.n(")")
         if r < 52: return self.w("t") + self.n(".") + self.n("m") + self.n("(") + self.glue(self.ie(d - 1)) + self.n(")")
         if r < 55: return self.w("v") + self.n("(") + self.glue(self.ie(d - 1)) + self.n(",") + self.ie(d - 1) + self.n(")")
@@ -104,6 +104,15 @@ class Gen:
         if r < 97: return self.w("(") + self.n("T") + self.n("{") + self.n("x") + self.n(":") + self.ie(d - 1) + self.n("}") + self.n(")") + self.n(".") + self.n("x")
         if r < 98: return self.w("i") + self.n(".") + self.n("(") + self.n("int") + self.n(")")
         return self.w("int") + self.n("(") + self.glue(self.ie(d - 1)) + self.n(")")
+
+    def idx(self, d):
+        """index expression that is never a (possibly negative) constant"""
+        r = self.rng.below(5)
+        if r == 0: return self.w("a")
+        if r == 1: return self.w("b")
+        if r == 2: return self.w("a") + self.w("+") + self.lit()
+        if r == 3: return self.w("f") + self.n("(") + self.glue(self.ie(d)) + self.n(")")
+        return self.w("t") + self.n(".") + self.n("x")
 
     def atom(self, d):
         return self.rng.choice([self.w("a"), self.w("b"), self.w("(") + self.glue(self.ie(d)) + self.n(")"), self.w("f") + self.n("(") + self.n("a") + self.n(")")])
@@ -146,7 +155,7 @@ class Gen:
         r = self.rng.below(6)
         if r == 0: return self.w("a")
         if r == 1: return self.w("b")
-        if r == 2: return self.w("s") + self.n("[") + self.glue(self.ie(1)) + self.n("]")
+        if r == 2: return self.w("s") + self.n("[") + self.glue(self.idx(1)) + self.n("]")
         if r == 3: return self.w("m") + self.n("[") + self.n('"k"') + self.n("]")
         if r == 4: return self.w("t") + self.n(".") + self.n("x")
         return self.w("t") + self.n(".") + self.n("p") + self.n(".") + self.n("s") + self.n("[") + self.n("0") + self.n("]")
@@ -497,8 +506,11 @@ def run(ctx):
         if not toks:
             toks = ["x"]
         add(mode, toks, ctx.rng.below(3))
+    ctx.log("model correspondence: %d cases generated" % len(icases))
     rc1, out1 = ctx.run([impl], input="\n".join(icases) + "\n")
+    ctx.log("implementation side done")
     rc2, out2 = ctx.run([model], input="\n".join(mcases) + "\n")
+    ctx.log("model side done")
     agree = skipped = 0
     outcome = {}
     if rc1 != 0 or rc2 != 0:
@@ -586,7 +598,9 @@ def run(ctx):
         for _ in range(3):
             v = PRELUDE + render(toks, ctx.rng, 25, 25, 10)
             cases.append(("gen:" + vlib.sha(v), "T gen:%s %s" % (vlib.sha(v), v.encode().hex())))
+    ctx.log("tree comparison: %d files/sources" % len(cases))
     rc, out = ctx.run([impl], input="\n".join(l for _, l in cases) + "\n", timeout=ctx.n(100, 3000))
+    ctx.log("tree comparison done")
     lines = out.splitlines()
     hist, illtyped = {}, []
     if rc != 0 or len(lines) != len(cases):
